@@ -150,6 +150,17 @@ type funcCtx struct {
 	body   *ast.BlockStmt
 	pkg    *pkgInfo
 	seenGo bool // a go statement was already passed (constructor phase over)
+
+	// captured-locals analysis (function-local variables shared between goroutines)
+	parent  *funcCtx  // enclosing body of a literal
+	top     *funcCtx  // the declared function the body lives in (itself for a declaration)
+	declPos token.Pos // extent of the declaration (top only)
+	declEnd token.Pos
+	role    string    // literals: "" runs on the enclosing goroutine, "go" launched by a go statement, "callback" handed to other code
+	multi   bool      // "go": launched by several go statements or by one inside a loop
+	goPos   token.Pos // "go": the earliest go statement that launches it
+	loopPos token.Pos // "go": innermost loop around that go statement (0 = none)
+	extPos  token.Pos // literals: start of the literal (parameters included)
 }
 
 type callSite struct {
@@ -302,7 +313,9 @@ func main() {
 					continue
 				}
 				obj, _ := pi.info.Defs[fd.Name].(*types.Func)
-				fc := &funcCtx{name: funcName(fd), obj: obj, body: fd.Body, pkg: pi}
+				fc := &funcCtx{name: funcName(fd), obj: obj, body: fd.Body, pkg: pi, declPos: fd.Pos(), declEnd: fd.End()}
+				fc.top = fc
+				scanLits(fd, pi)
 				ln := strings.ToLower(fd.Name.Name)
 				fc.isCtor = fd.Recv == nil && (strings.HasPrefix(ln, "new") || strings.HasPrefix(ln, "init"))
 				if obj != nil {
@@ -374,13 +387,8 @@ func main() {
 				h[k] = true
 			}
 		}
-		if r.Kind != "read" { // a shared (read) hold of an RWMutex protects reads only
-			for k := range h {
-				if strings.HasSuffix(k, "#R") && !h[strings.TrimSuffix(k, "#R")] {
-					delete(h, k)
-				}
-			}
-		}
+		// "name#R" = held at least in read mode.  The rows say what is held, in which mode; that a
+		// shared (read) hold protects plain reads only is decided by the Coq discipline (guards).
 		r.Held = h.sorted()
 		key := r.Site + "|" + r.Field + "|" + r.Kind + "|" + strings.Join(r.Held, ",")
 		if seen[key] {
@@ -397,7 +405,8 @@ func main() {
 	})
 	writeCoq(*coqOut, *name, out)
 	sort.Strings(lost)
-	js, _ := json.MarshalIndent(map[string]interface{}{"rows": out, "coverage_lost": lost}, "", " ")
+	js, _ := json.MarshalIndent(map[string]interface{}{"rows": out, "coverage_lost": lost, "captured_locals": capturedLocals(),
+		"example": exampleStats}, "", " ")
 	if err := os.WriteFile(*jsonOut, js, 0644); err != nil {
 		die(err)
 	}
@@ -721,6 +730,9 @@ func (w *walker) exprx(e ast.Expr, held lockset, mode string, deep bool) {
 			if name, ok := trackedObj[o]; ok {
 				w.recordAt(x.Pos(), name, mode, held, x, deep)
 			}
+			if v, ok := o.(*types.Var); ok {
+				w.localAccess(x, v, mode, held, deep)
+			}
 			if fn, ok := o.(*types.Func); ok {
 				valueUsed[fn] = true // a function used as a value can be called from anywhere
 			}
@@ -796,7 +808,10 @@ func (w *walker) exprx(e ast.Expr, held lockset, mode string, deep bool) {
 		w.call(x, held, false)
 	case *ast.FuncLit:
 		// a function value: runs who knows when, with no lock certainly held
-		fc := &funcCtx{name: w.fc.name + "$lit@" + w.pos(x.Pos()), isLit: true, body: x.Body, pkg: w.fc.pkg}
+		fc := &funcCtx{name: w.fc.name + "$lit@" + w.pos(x.Pos()), isLit: true, body: x.Body, pkg: w.fc.pkg, parent: w.fc, top: w.fc.top, extPos: x.Pos()}
+		if li := litInfos[x]; li != nil {
+			fc.role, fc.multi, fc.goPos, fc.loopPos = li.role, li.multi, li.goPos, li.loopPos
+		}
 		if !w.silent {
 			(&walker{fc: fc}).block(x.Body.List, lockset{})
 		}
@@ -1088,6 +1103,9 @@ func writeCoq(path, name string, out []*row) {
 		fmt.Fprintf(&b, "  mkAccess %s %s %s %s [%s]%s\n", coqStr(r.Site), coqStr(r.Fn), coqStr(r.Field), kinds[r.Kind], strings.Join(hs, "; "), sep)
 	}
 	b.WriteString("].\n")
+	if name == "access_table" {
+		b.WriteString(exampleCoq(out))
+	}
 	if err := os.WriteFile(path, []byte(b.String()), 0644); err != nil {
 		die(err)
 	}
